@@ -216,8 +216,8 @@ def run_jobs(jobs, trace_out=None, timeout=900, tag="jobs", may_abort=False):
         results[crashed] = [{"abort": True, "rc": rc}]
         start = crashed + 1
         part += 1
-        if not may_abort and part > 50:
-            raise ToolError("runner keeps dying")
+        if part > (2000 if may_abort else 300):
+            raise ToolError("the runner died more than %d times in one batch" % part)
     for k, r in enumerate(results):
         if r is None:
             results[k] = [{"abort": True, "rc": "lost"}]
